@@ -662,6 +662,13 @@ def quoting_rules():
         c = name if re.match(r'^[A-Za-z_][A-Za-z0-9_]*$', name) else None
         if c:
             out.append(('ident ' + name, 'detection:\n  %s:\n    f: v\n  B:\n    g: 1\n  condition: %s and not B\ntrue_positives: []\ntrue_negatives: []\n' % (yq(name), c)))
+    # plain scalars that YAML does not read as strings, as identifier names, as keys inside blocks and inside examples
+    for nm in ('true', 'false', 'null', 'True', 'yes'):
+        out.append(('plain ident ' + nm, 'detection:\n  %s:\n    f: v\n  condition: %s\ntrue_positives: []\ntrue_negatives: []\n' % (nm, nm)))
+    for key in ('true', '1', '~', '1.5', 'null'):
+        out.append(('plain example key ' + key, 'detection:\n  A:\n    f: v\n  condition: A\ntrue_positives:\n- %s: x\n  f: v\ntrue_negatives:\n- f: w\n  %s: y\n' % (key, key)))
+        out.append(('plain block key ' + key, 'detection:\n  A:\n    g:\n      %s: x\n  condition: A\ntrue_positives: []\ntrue_negatives: []\n' % key))
+        out.append(('plain field key ' + key, 'detection:\n  A:\n    %s: x\n  condition: A\ntrue_positives: []\ntrue_negatives: []\n' % key))
     for cnd in ('A  and   B', ' A or B ', 'A and (B or A)', 'not A', 'all(A)', 'of(A, 1)', 'int(f) > 1 and A', 'str(f) == str(g) or B', '(A)', 'A and not(B)'):
         out.append(('cond ' + cnd, 'detection:\n  A:\n    f: v\n    h: w\n  B:\n    g: 1\n  condition: %s\ntrue_positives: []\ntrue_negatives: []\n' % yq(cnd)))
     return out
@@ -680,6 +687,9 @@ def native_roundtrip_one(br, yaml, opts):
     if r.get('panic'):
         return 'panic: ' + r['panic'][:200], r
     if not r.get('ok'):
+        fv = r.get('from_value')
+        if isinstance(fv, dict) and 'err' not in fv:
+            return 'from_value accepts a rule that from_str rejects (%s)' % str(r.get('err'))[:120], r
         return None, r            # does not load: nothing to round-trip
     for how in ('text', 'value', 'text_value'):
         x = r.get(how) or {}
@@ -693,9 +703,13 @@ def native_roundtrip_one(br, yaml, opts):
         if x.get('verdicts') != r.get('verdicts'):
             return '%s: verdicts on the example documents differ' % how, r
     if r.get('from_value') is not None:
+        if 'err' in r['from_value']:
+            return 'from_value rejects a rule that from_str loads: %s' % str(r['from_value']['err'])[:160], r
         d = native_compare(r['orig'], r['from_value'])
         if d:
             return 'from_value(text as value) differs from from_str(text) in %s' % d, r
+        if not r.get('from_value_examples_equal', True):
+            return 'from_value(text as value) has other examples than from_str(text)', r
     return None, r
 
 
@@ -729,6 +743,14 @@ def unit_native(ck, chunk):
             ck.extra['native_roundtrips'] = ck.extra.get('native_roundtrips', 0) + 1
             if r.get('ok'):
                 ck.extra['native_roundtrips_loaded'] = ck.extra.get('native_roundtrips_loaded', 0) + 1
+            if why and why.startswith('from_value rejects a rule that from_str loads') and 'invalid type' in why and 'expected a string' in why:
+                key = 'from_value:non-string-plain-scalar-where-a-string-is-expected'
+                kf = ck.known_match(key)
+                if kf:
+                    msg = '%s :: %s' % (key, kf['desc'])
+                    if msg not in ck.known_hits:
+                        ck.known_hits.append(msg)
+                    continue
             if why:
                 path = ck.write_replay(safe_name('native_' + name)[:80], {'rule': y, 'opts': opts, 'native': r, 'what': why,
                                                                            'request': {'cmd': 'roundtrip', 'yaml': y, 'opts': opts}})
